@@ -729,12 +729,18 @@ func verifAssume(cond bool) {}
 // at build time (the tables are outside Build's frame).
 //@ globalinv defaultServerConfig != nil  ## package initialiser: var defaultServerConfig = NewServerConfig(), never reassigned
 //@ func NewServer :: (config, mux, listeners) (result)
-//@   props C20
+//@   props C03 C20
 //@   panics only-if mux == nil || len(listeners) == 0
 //@   modifies nothing
 //@   ensures [C20] @samemux result != nil && fresh(result) && result.mux == mux
+//@   ensures [C03,C20] @sameconfig config != nil ==> result.config == config
+//@ func buildAuthenticate :: (plainAuth, keyAuth, externalAuth) (result)
+//@   props C03
+//@   modifies nothing
+//@   ensures result != nil
 //@ func (*ServerBuilder).Build :: (b) (result)
-//@   props C20
+//@   props C03 C20
+//@   checks [C03] @installsauth result.config == b.config && b.config.Authenticate == resultof("buildAuthenticate", 0)  ## the server runs on the builder's configuration, with the dispatcher over the ENABLED authenticators installed in it (not the accept-all placeholder of NewServerConfig)
 //@   requires b != nil && b.config != nil
 //@   panics only-if b.mux == nil || len(b.listeners) == 0
 //@   modifies b.config.Authenticate
